@@ -1,0 +1,97 @@
+//! C17 — the relay receive path (`RelayTransport::poll_recv`, `socket/transports/relay.rs`)
+//! driven directly: a transport fed by a test channel, no relay actor.
+use std::{
+    io,
+    task::{Context, Poll, Waker},
+};
+
+use iroh_base::{EndpointId, RelayUrl};
+use iroh_relay::protos::relay::Datagrams;
+
+use crate::socket::transports::{Addr, RecvInfo, RelayTransport};
+
+/// One filled receive slot: source, `meta.len`, `meta.stride`, `buf[..len]`.
+#[derive(Debug, Clone)]
+pub struct Slot {
+    pub url: RelayUrl,
+    pub src: EndpointId,
+    pub len: usize,
+    pub stride: usize,
+    pub data: Vec<u8>,
+}
+
+#[derive(Debug)]
+pub enum PollOut {
+    Ready(Vec<Slot>),
+    Pending,
+    Err(io::ErrorKind),
+}
+
+pub struct Transport {
+    inner: RelayTransport,
+    feed: Box<dyn FnMut(Option<(RelayUrl, EndpointId, Datagrams)>) -> bool + Send>,
+}
+
+impl Transport {
+    /// Must be called inside a tokio runtime.
+    pub fn new(capacity: usize) -> Self {
+        let (inner, feed) = RelayTransport::verif_without_actor(capacity);
+        Transport { inner, feed }
+    }
+
+    /// What the relay actor does with a received batch: queue it (false: full or closed).
+    pub fn push(&mut self, url: RelayUrl, src: EndpointId, datagrams: Datagrams) -> bool {
+        (self.feed)(Some((url, src, datagrams)))
+    }
+
+    /// Drops the sending half of the queue.
+    pub fn close(&mut self) -> bool {
+        (self.feed)(None)
+    }
+
+    /// One `poll_recv` with buffers of the given sizes.
+    pub fn poll(&mut self, waker: &Waker, buf_lens: &[usize]) -> PollOut {
+        let mut store: Vec<Vec<u8>> = buf_lens.iter().map(|l| vec![0xEEu8; *l]).collect();
+        let mut bufs: Vec<io::IoSliceMut<'_>> =
+            store.iter_mut().map(|b| io::IoSliceMut::new(b)).collect();
+        let mut metas = vec![noq_udp::RecvMeta::default(); buf_lens.len()];
+        let placeholder = Addr::Relay(
+            "https://placeholder.invalid".parse().unwrap(),
+            iroh_base::SecretKey::from_bytes(&[0u8; 32]).public(),
+        );
+        let mut infos: Vec<RecvInfo> = (0..buf_lens.len())
+            .map(|_| RecvInfo::from_addr(placeholder.clone()))
+            .collect();
+        let mut cx = Context::from_waker(waker);
+        let r = self
+            .inner
+            .verif_poll_recv(&mut cx, &mut bufs, &mut metas, &mut infos);
+        drop(bufs);
+        match r {
+            Poll::Pending => PollOut::Pending,
+            Poll::Ready(Err(e)) => PollOut::Err(e.kind()),
+            Poll::Ready(Ok(n)) => PollOut::Ready(
+                (0..n)
+                    .map(|i| {
+                        let (url, src) = match infos[i].remote() {
+                            Addr::Relay(url, src) => (url.clone(), *src),
+                            _ => unreachable!("relay transport reports relay addresses"),
+                        };
+                        Slot {
+                            url,
+                            src,
+                            len: metas[i].len,
+                            stride: metas[i].stride,
+                            data: store[i][..metas[i].len.min(store[i].len())].to_vec(),
+                        }
+                    })
+                    .collect(),
+            ),
+        }
+    }
+
+    /// `(url, segment size, contents length)` of the item kept for the next poll.
+    pub fn pending(&self) -> Option<(RelayUrl, Option<u16>, usize)> {
+        self.inner.verif_pending_item()
+    }
+}
